@@ -1,5 +1,5 @@
 use crate::distributions::*;
-use crate::functions::gamma;
+use crate::functions::{gamma, ln_gamma};
 
 /// Implements the [Poisson](https://en.wikipedia.org/wiki/https://en.wikipedia.org/wiki/Poisson_distribution)
 /// distribution.
@@ -63,7 +63,7 @@ impl Discrete for Poisson {
         if k < 0 {
             0.
         } else {
-            self.lambda.powi(k as i32) * (-self.lambda).exp() / gamma(k as f64 + 1.)
+            (k as f64 * self.lambda.ln() - self.lambda - ln_gamma(k as f64 + 1.)).exp()
         }
     }
 }
